@@ -35,7 +35,8 @@ func outProblem(o *proto.Output) (sig, what string) {
 func C04(c *fw.Ctx) {
 	c.Rule("corpus, 1-2 step mutants of corpus files, and a targeted generator (Path/regex/comment-only bodies, undefined types and enums, " +
 		"rule-example mismatches, invalid regexes, invalid UTF-8, all notations, json-rpc, tags, servers); every accepted build is serialised with " +
-		"ToJson and ToJsonIndent and validated; distinct = distinct project bytes; non-trivial = the build was accepted")
+		"ToJson and ToJsonIndent and validated; every project outside the mutant stream is built a second time and the two accessors are called "+
+		"concurrently on that one catalog (first use of every lazily built part is contended, delays at the yield hooks), same oracle; distinct = distinct project bytes; non-trivial = the build was accepted")
 	c.Assume("the shape validator was written from the JDoc Exchange 2.0.0 layout (harness/internal/ref/jdoc.go)")
 	pool := c.Pool(false, 0)
 	kinds := map[string]int{}
@@ -44,6 +45,14 @@ func C04(c *fw.Ctx) {
 			j.ID = label + "/" + j.ID
 			j.Ops = []string{"json", "jsonindent"}
 			emit(j)
+			if label != "light-mutant" {
+				// the same project once more, with the two accessors called at the same time on the one catalog: what they return
+				// must not depend on who gets to the lazily built parts (allOf expansion, examples) first
+				jp := *j
+				jp.ID = "parallel-" + j.ID
+				jp.ParallelOps = true
+				emit(&jp)
+			}
 		})
 	}, func(j *proto.Job, res *proto.Result) {
 		if workerProblem(c, res) {
